@@ -344,7 +344,7 @@ def run(ctx):
     tree_tie(ctx, cases)
     # 4. attribute positions at tree level (C04_attr_value_literal, C04_group_bracket_attr): `name[n<value>]` for every
     # value form over the whole alphabets of the theorem; oracle = the written value against emmet.abbreviation.parse
-    atg.run_stream(ctx, 'C04', 0, 0, 1500 if quick else 40000, kinds={'seed', 'value'})
+    atg.run_stream(ctx, 'C04', 0, 0, 1500 if quick else 40000, kinds={'value'})
     k = 0
     for (abbr, cfg, meta), r in zip(cases, impl):
         if meta.get('pieces') and meta['kind'].startswith(('wrap', 'attr', 'text')) and k < 8 and len(abbr) < 60:
